@@ -273,6 +273,40 @@ class _NormalForm(ast.NodeTransformer):
             return [asg, n]
         return n
 
+    def visit_While(self, n):
+        # `while (x := E) is None: B`  ->  `while True: x = E; if not (x is None): break; B`
+        # (the assignment expression is what the test evaluates first; no else clause)
+        self.generic_visit(n)
+        if n.orelse:
+            return n
+        holder, attr = None, None
+        cur, parent, pattr = n.test, n, 'test'
+        while True:
+            if isinstance(cur, ast.NamedExpr):
+                holder, attr = parent, pattr
+                break
+            if isinstance(cur, ast.Compare):
+                cur, parent, pattr = cur.left, cur, 'left'
+            elif isinstance(cur, ast.BoolOp):
+                cur, parent, pattr = cur.values[0], cur, ('values', 0)
+            elif isinstance(cur, ast.UnaryOp) and isinstance(cur.op, ast.Not):
+                cur, parent, pattr = cur.operand, cur, 'operand'
+            else:
+                break
+        if holder is None or not isinstance(cur.target, ast.Name):
+            return n
+        name = ast.copy_location(ast.Name(id=cur.target.id, ctx=ast.Load()), cur)
+        if isinstance(attr, tuple):
+            getattr(holder, attr[0])[attr[1]] = name
+        else:
+            setattr(holder, attr, name)
+        asg = ast.copy_location(ast.Assign(targets=[ast.Name(id=cur.target.id, ctx=ast.Store())], value=cur.value), n)
+        brk = ast.copy_location(ast.If(test=ast.UnaryOp(op=ast.Not(), operand=n.test), body=[ast.Break()], orelse=[]), n)
+        loop = ast.copy_location(ast.While(test=ast.Constant(value=True), body=[asg, brk] + n.body, orelse=[]), n)
+        ast.fix_missing_locations(loop)
+        self.count += 1
+        return loop
+
     def visit_Expr(self, n):
         # `yield from g` as a statement  ->  `for _yf in g: yield _yf`  (plain iteration: the library never sends into
         # or throws into its generators, so delegation and re-yielding are the same)
@@ -361,7 +395,7 @@ def normalise(tree, relpath):
         return done
     from sa import inline
     known_functions = set(ref.get('__functions__', []))
-    if known_functions:
+    if ref is not None:
         if getattr(tree, '_src', None) is None or not _is_reference_text(tree, relpath):
             done.extend('%s: %s' % (relpath, x) for x in inline.unroll_table_loops(tree, known_functions))
             done.extend('%s: %s' % (relpath, x) for x in inline.expand_constant_kwargs(tree))
